@@ -18,8 +18,24 @@ open J5V.Go J5V.Rules
 arbitrary admissible values — compiling the property and reflecting the compiled field gives back
 the declared property (name, proto field number, required / optional, description, type and
 format, every rule with its inclusivity, item counts and uniqueness, enum in / not-in, key format
-and entity key, flatten, list rules). -/
-theorem C04_field_roundtrip (p : Property) (h : WFField p = true) :
+and entity key, flatten, list rules).
+
+`_partial` of `C04_full` (below): `WFField` (`Rules/Norm.lean`) excludes, beside the inadmissible
+declarations (compile errors: rule values, required + optional), exactly these classes, each with a
+proved counterexample below and confirmed on the real code:
+* `StringField.format` (`C04_string_format_counterexample`);
+* array items / map values whose own `(j5.ext.v1.field)` annotation is replaced by the array
+  annotation / sits on the map entry's value field: keys without uuid / id62 format or with an
+  entity, strings with a well-known pattern, date / decimal rules, **`flatten` objects**
+  (`C04_container_flatten_counterexample`), **`any` with `onlyDefined` / `types`**
+  (`C04_container_any_counterexample`) (`C04_array_key_…`, `C04_string_id62_pattern_…`,
+  `C04_custom_id62_key_lr_…`, `C04_map_value_annotations_…`);
+* list rules on map values (`C04_map_value_annotations_counterexample`);
+* **`? array` / `? map`** — accepted by the compiler, `explicitlyOptional` is not carried by a repeated
+  / map field (`C04_optional_container_counterexample`).
+(`WFField` also leaves out arrays of keys that carry an entity although they round-trip: harmless
+over-exclusion.) -/
+theorem C04_field_roundtrip_partial (p : Property) (h : WFField p = true) :
     roundtrip p = .ok (normField p) :=
   field_roundtrip p h
 
@@ -86,7 +102,7 @@ theorem C04_properties_roundtrip (ps : List Property) (h : ps.all WFField = true
     obtain ⟨as, hw, hr⟩ := ih h.2
     obtain ⟨a, q, hwa, hra⟩ := C04_reader_total p h.1
     have hq : q = normField p := by
-      have := C04_field_roundtrip p h.1
+      have := C04_field_roundtrip_partial p h.1
       simp only [roundtrip, hwa, hra, Outcome.ok.injEq] at this
       exact this
     subst hq
@@ -176,7 +192,7 @@ theorem C04_norm_int_idem (r : IntRules) : normIntRules (normIntRules r) = normI
 /-- declarations that are admissible in the sense of the property (no exclusion of the recorded
 defect classes): rule values admissible, not both required and optional -/
 def Admissible (p : Property) : Bool :=
-  schemaWF p.schema.item && !(p.explicitlyOptional && p.effRequired) && !(p.schema.isArray && p.explicitlyOptional)
+  schemaWF p.schema.item && !(p.explicitlyOptional && p.effRequired)
 
 /-- the full-strength statement -/
 def C04_full : Prop := ∀ p : Property, Admissible p = true → roundtrip p = .ok (normField p)
@@ -234,6 +250,39 @@ theorem C04_map_value_annotations_counterexample :
                 schema := .map (.bool none (some { text := "f1/df/s0/ds0/q0/qi-" })) none none }
       = .ok { name := "m", number := 2, schema := .map (.bool none none) none none } := by
   constructor <;> decide
+
+/-- `schema-diff:array:any:od:1->0` / `…:types:dropped` (and `map:`): `onlyDefined` / `types` of `any`
+items / values travel in the item's `(j5.ext.v1.field).any`, which the array annotation replaces and
+which for maps sits on the entry's value field. Real code (probe, 4dfe9b2): `array:any {
+items.any.onlyDefined = true  items.any.types = ["foo.v1.Bar"] }` reflects with `od=0 types=~`. -/
+theorem C04_container_any_counterexample :
+    roundtrip { name := "a", number := 2, schema := .array (.any true ["foo.v1.Bar"] none) none none }
+      = .ok { name := "a", number := 2, schema := .array (.any false [] none) none none } ∧
+    roundtrip { name := "a", number := 2, schema := .map (.any true [] none) none none }
+      = .ok { name := "a", number := 2, schema := .map (.any false [] none) none none } := by
+  constructor <;> decide
+
+/-- `schema-diff:array:obj:flat:1->0` (and `map:`): `items.object.flatten = true` is written in the
+item's `(j5.ext.v1.field).object`, lost like the other item annotations. Real code: reflects `flat=0`. -/
+theorem C04_container_flatten_counterexample :
+    roundtrip { name := "o", number := 2, schema := .array (.object "Bar" true false) none none }
+      = .ok { name := "o", number := 2, schema := .array (.object "Bar" false false) none none } ∧
+    roundtrip { name := "o", number := 2, schema := .map (.object "Bar" true false) none none }
+      = .ok { name := "o", number := 2, schema := .map (.object "Bar" false false) none none } := by
+  constructor <;> decide
+
+/-- `schema-diff:array:<kind>:opt:1->0` (and `map:`): `field x ? array:string` / `? map:string`
+compile (no error), the descriptor of a repeated / map field cannot carry `optional`, and the schema
+read back is not explicitly optional. Real code: reflects `opt=0`, in memory and through the text. -/
+theorem C04_optional_container_counterexample :
+    roundtrip { name := "s", number := 2, explicitlyOptional := true, schema := .array (.string none none none) none none }
+      = .ok { name := "s", number := 2, schema := .array (.string none none none) none none } ∧
+    roundtrip { name := "s", number := 2, explicitlyOptional := true, schema := .map (.string none none none) none none }
+      = .ok { name := "s", number := 2, schema := .map (.string none none none) none none } ∧
+    Admissible { name := "s", number := 2, explicitlyOptional := true, schema := .array (.string none none none) none none } = true ∧
+    normField { name := "s", number := 2, explicitlyOptional := true, schema := .array (.string none none none) none none }
+      ≠ { name := "s", number := 2, schema := .array (.string none none none) none none } := by
+  refine ⟨by decide, by decide, by decide, by decide⟩
 
 /-! ## non-vacuity -/
 
@@ -368,27 +417,27 @@ set_option maxRecDepth 100000
 error `default` -/
 theorem C04_src_branches :
     everyMemberHasWriterBranch = true ∧ everyMemberHasReaderProducer = true ∧ writerDefaultsPresent = true := by
-  decide
+  decide +kernel
 
 /-- every field of every j5 field message (and of its `Rules` message) is read by the writer's
 branch for that kind, except the explicit list `schemaExceptions` -/
-theorem C04_src_schema_fields_read : everySchemaFieldIsReadOrListed = true := by decide
+theorem C04_src_schema_fields_read : everySchemaFieldIsReadOrListed = true := by decide +kernel
 
 /-- … and that list is exact: each listed field exists and is not read (repairing one of them has
 to shorten the list). Its open-finding part is `StringField.format` (`schema-diff:str:sfmt:dropped`
 and its array / map variants); the other entries are outside the property, with the reason given. -/
 theorem C04_src_exceptions_exact :
-    exceptionsAreExact = true ∧ openSchemaExceptions = [("StringField", "Format")] := by decide
+    exceptionsAreExact = true ∧ openSchemaExceptions = [("StringField", "Format")] := by decide +kernel
 
 /-- every option field the writer fills from the declared schema is a slot of the table (a new
 copy needs a reader slot), and no table row is stale -/
 theorem C04_src_writer_copies_have_slots : everyWriterCopyHasSlot = true ∧ everySlotIsWritten = true := by
-  decide
+  decide +kernel
 
 /-- every slot is read back by the reader from that very option field into the paired schema
 field (for enum in / notIn: under the guard on that option field); every field of a typed `Ext`
 message copied by `setJ5Ext` is read back from `(j5.ext.v1.field).<member>` -/
-theorem C04_src_slots_read_back : everySlotIsReadBack = true ∧ everyExtFieldIsReadBack = true := by decide
+theorem C04_src_slots_read_back : everySlotIsReadBack = true ∧ everyExtFieldIsReadBack = true := by decide +kernel
 
 /-- the two container branches — and no other branch — set a member of `(j5.ext.v1.field)` around
 an item built by `buildField`: `array` replaces the item's annotation on the same field (open
@@ -397,33 +446,39 @@ entry's value field, which no reader consults (open findings `…:map:…`). A t
 repair that moves the item annotation elsewhere, changes this list. -/
 theorem C04_src_container_annotations :
     containerExtCalls = [("buildProperty/Field_Map", "setJ5Ext(\"map\")"),
-                         ("buildProperty/Field_Array", "setJ5Ext(\"array\")")] := by decide
+                         ("buildProperty/Field_Array", "setJ5Ext(\"array\")")] := by decide +kernel
 
 /-- the reader inverts the writer's inclusivity table exactly as `readIntRules` does: per integer
 format and per member of `less_than` / `greater_than`, the bound is read from that member, and the
 exclusive flag is set (to true) in the `Lt` / `Gt` cases only -/
-theorem C04_src_reader_inclusivity : readerInclusivityMatchesModel = true := by decide
+theorem C04_src_reader_inclusivity : readerInclusivityMatchesModel = true := by decide +kernel
 
 /-- list rules: the member of `(j5.list.v1.field)` a key's list rules are written to, per key
 format, is the model's `keyListExt` (unique_string for no / informal / custom format, id62, uuid);
 float list rules go to `double` for FLOAT64 and to `float` otherwise; integer list rules to the
 member of their format -/
-theorem C04_src_list_slots : listSlotFacts = true := by decide
+theorem C04_src_list_slots : listSlotFacts = true := by decide +kernel
 
 /-- roots: an object root carries exactly entity name, entity part and any-membership into its
 message options and each is read back from that very option field; the `object` / `oneof` mark of
 `(j5.ext.v1.message).type` is written by the two visitors and decides `isOneofWrapper` first -/
-theorem C04_src_root_annotations : rootFacts = true := by decide
+theorem C04_src_root_annotations : rootFacts = true := by decide +kernel
+
+/-- the writer's enum declaration (`visitEnumNode`, `enumBuilder.addValue`): default prefix, implicit /
+explicit UNSPECIFIED = 0 and numbering from 1, prefixing of option names, and the source-location
+paths of descriptions — an option's under its NUMBER (`EnumDecl.comments`, `C04_enum_option_descriptions`),
+a property's under its index -/
+theorem C04_src_enum_writer : enumWriterFacts = true := by decide +kernel
 
 /-- the reader's legacy entity lookup through a field called `keys` is present, and is the only
 re-assignment of the PSM options: the open finding `schema-diff:root:entity:invented[keys-field]`
 (`C04_root_entity_invented_counterexample`); repairing it changes this fact -/
-theorem C04_src_legacy_keys_lookup : legacyKeysLookupFacts = true := by decide
+theorem C04_src_legacy_keys_lookup : legacyKeysLookupFacts = true := by decide +kernel
 
 /-- `Required` / `ExplicitlyOptional` are read as the model's `readField` reads them (array and map
 properties: `(buf.validate.field).required` only), and every property builder names the property
 by `json_name` (`C04_reader_uses_json_name`) -/
-theorem C04_src_required_and_names : readerRequiredFacts = true ∧ readerNameFacts = true := by decide
+theorem C04_src_required_and_names : readerRequiredFacts = true ∧ readerNameFacts = true := by decide +kernel
 
 end Src
 
